@@ -506,6 +506,13 @@ def gen_relay():
     db = fn_body(copy, "drain_buffers")
     drain_ok = before(db, r"from\s*\.\s*buffer\s*\(\s*\)", r"write_all") and before(db, r"write_all\s*\(\s*left_over\s*\)", r"flush")
     both_halves = len(re.findall(r"copy_half\s*\(", cb)) == 2 and bool(re.search(r"while\s+c2s\s*\.\s*is_none\s*\(\s*\)\s*\|\|\s*s2c\s*\.\s*is_none\s*\(\s*\)", cb))
+    # errors (reset, broken pipe, ...) are not end-of-stream: every arm hands them on, and copy_bidi aborts both directions
+    def arm_propagates(arm):
+        # the first statement of the arm binds the result with `?`
+        return bool(re.match(r"have_\w+\s*=>\s*\{\s*let\s+\w+\s*=\s*ret\s*\.\s*with_context\s*\([^;]*?\)\s*\?\s*;", arm, re.S))
+    arm_frames = ch[i_frames:i_rawfd] if ok_arms else ""
+    errors_propagate = ok_arms and all(arm_propagates(a) for a in (arm_stream, arm_frames, arm_rawfd)) and \
+        len(re.findall(r"Some\s*\(\s*ret\s*\?\s*\)", cb)) == 2
     B = lambda b: "true" if b else "false"
     body = "(* GENERATED by gen/translate.py from src/copy.rs (copy_half, copy_bidi, drain_buffers).  Do not edit. *)\n"
     body += "From Coq Require Import NArith.\n"
@@ -518,6 +525,7 @@ def gen_relay():
     body += "Definition frames_destination_shut_down : bool := %s.\n" % B(frames_shutdown)
     body += "Definition read_ahead_drained_both_ways_before_unwrap : bool := %s.\n" % B(drain_both and drain_ok)
     body += "Definition bidi_runs_two_halves_until_both_done : bool := %s.\n" % B(both_halves)
+    body += "Definition io_errors_abort_both_directions : bool := %s.\n" % B(errors_propagate)
     return body
 
 
